@@ -316,8 +316,92 @@ def base_nested(rng):
                              "wtmpl": sheet(FH, tm), "first": sheet(FH, first), "loops": sheet(FH, copy.deepcopy(BLOCK_ROWS))})
 
 
+def base_redef(rng):
+    """a valid workbook in which definitions are REPLACED by later rows of the index (legal: the
+    tool only warns "Multiple definitions of flow … Overwriting" / "Duplicate campaign definition"):
+
+    * flow `survey` is defined three times from three different sheets — `survey_draft` (replaced
+      later), `survey_mid` (in a nested index; replaces and is replaced), `survey_final` (replaces
+      the earlier ones and is the one that reaches the output);
+    * the bulk flows `bulk - <id>` are defined from template `tmplA`, again from `tmplB`, and one
+      of them a third time by a single-row create_flow (a different (data_sheet, data_row_id) key
+      with the same flow name);
+    * campaign `camp` is defined from `campA` and again from `campB`; the trigger sheet is
+      listed twice.
+
+    Every definition is parsed by the tool whether or not it survives, so a fault in any of them
+    must stop the command.  `survey_draft` is the only place that refers to flow `draft only flow`
+    (without a uuid): a replaced flow does not reach the uuid dictionary, so that name stays unknown."""
+    w = rng.choice(["yes", "ok", "sure"])
+    draft = [
+        {"row_id": "d1", "type": "send_message", "from": "start", "message_text": "Draft question", "choices": "Yes;No"},
+        {"row_id": "d2", "type": "wait_for_response", "from": "d1"},
+        {"row_id": "d3", "type": "send_message", "from": "d2", "condition": w, "condition_name": "Agree", "message_text": "Good"},
+        {"row_id": "d4", "type": "save_value", "from": "d3", "message_text": "val " + w, "save_name": "draft field"},
+        {"row_id": "d5", "type": "add_to_group", "from": "d4", "message_text": "Survey Group", "obj_id": U[0]},
+        {"row_id": "d6", "type": "start_new_flow", "from": "d5", "message_text": "draft only flow"},
+        {"row_id": "d7", "type": "call_webhook", "from": "d2", "condition": "no", "webhook.url": "http://example.org/draft",
+         "webhook.method": rng.choice(["GET", "POST", ""]), "webhook.headers": "Accept;text/plain|", "save_name": "draft hook"},
+    ]
+    mid = [
+        {"row_id": "n1", "type": "send_message", "from": "start", "message_text": "Second draft"},
+        {"row_id": "n2", "type": "begin_block", "from": "n1"},
+        {"row_id": "n3", "type": "save_flow_result", "from": "", "message_text": "mid", "save_name": "mid result"},
+        {"row_id": "", "type": "end_block"},
+        {"row_id": "n4", "type": "remove_from_group", "from": "n2", "message_text": "Survey Group", "obj_id": U[0]},
+    ]
+    final = [
+        {"row_id": "f1", "type": "send_message", "from": "start", "message_text": "Final question"},
+        {"row_id": "ff", "type": "begin_for", "from": "f1", "loop_variable": "x", "message_text": rng.choice(["a;b", "p;q;r"])},
+        {"row_id": "f2", "type": "send_message", "from": "", "message_text": "item {{x}}"},
+        {"row_id": "", "type": "end_for"},
+        {"row_id": "f3", "type": "wait_for_response", "from": "ff"},
+        {"row_id": "f4", "type": "save_flow_result", "from": "f3", "condition": "yes", "message_text": "final", "save_name": "final result"},
+        {"row_id": "f5", "type": "add_to_group", "from": "f4", "message_text": "Survey Group", "obj_id": U[0]},
+    ]
+    simple = lambda p, t: [{"row_id": p + "1", "type": "send_message", "from": "start", "message_text": t}]  # noqa: E731
+    tmpl_a = [
+        {"row_id": "ta1", "type": "send_message", "from": "start", "message_text": "A {{greet}} {{word}}"},
+        {"row_id": "ta2", "type": "save_value", "from": "ta1", "message_text": "{{word}}", "save_name": "word a"},
+    ]
+    tmpl_b = [
+        {"row_id": "tb1", "type": "send_message", "from": "start", "message_text": "B {{word}} {{count}}"},
+        {"row_id": "tb2", "type": "wait_for_response", "from": "tb1"},
+        {"row_id": "tb3", "type": "send_message", "from": "tb2", "condition": "{{word}}", "message_text": "matched"},
+    ]
+    data = _data_rows(rng, 2)
+    camp_a = [{"offset": "1", "unit": "D", "event_type": "F", "relative_to": "Created On", "start_mode": "I", "flow": "welcome"}]
+    camp_b = [{"offset": "3", "unit": "H", "event_type": "M", "message": "reminder", "relative_to": "Created On", "start_mode": "S"},
+              {"offset": "2", "unit": "W", "event_type": "F", "relative_to": "Created On", "start_mode": "I", "flow": "goodbye"}]
+    trig = [{"type": "K", "keywords": "survey", "flow": "survey", "match_type": "F"},
+            {"type": "K", "keywords": "bye", "flow": "goodbye"}]
+    sub = [{"type": "create_flow", "sheet_name": "survey_mid", "new_name": "survey"}]
+    idx = [
+        {"type": "create_flow", "sheet_name": "welcome"},
+        {"type": "create_flow", "sheet_name": "survey_draft", "new_name": "survey"},
+        {"type": "data_sheet", "sheet_name": "data"},
+        {"type": "template_definition", "sheet_name": "tmplA", "template_arguments": "greet;;|"},
+        {"type": "create_flow", "sheet_name": "tmplA", "data_sheet": "data", "new_name": "bulk", "template_arguments": "hello"},
+        {"type": "content_index", "sheet_name": "sub_redef"},
+        {"type": "create_campaign", "sheet_name": "campA", "new_name": "camp", "group": "Campaign Group"},
+        {"type": "create_triggers", "sheet_name": "trigs"},
+        {"type": "create_flow", "sheet_name": "survey_final", "new_name": "survey"},
+        {"type": "create_flow", "sheet_name": "tmplB", "data_sheet": "data", "new_name": "bulk"},
+        {"type": "create_flow", "sheet_name": "tmplA", "data_sheet": "data", "data_row_id": data[0]["ID"], "new_name": "bulk",
+         "template_arguments": "hey"},
+        {"type": "create_campaign", "sheet_name": "campB", "new_name": "camp", "group": "Campaign Group"},
+        {"type": "create_triggers", "sheet_name": "trigs"},
+        {"type": "create_flow", "sheet_name": "goodbye"},
+    ]
+    return wb_new("redef", {
+        "content_index": _idx(idx), "sub_redef": _idx(sub), "welcome": sheet(FH, simple("w", "Welcome")),
+        "goodbye": sheet(FH, simple("g", "Goodbye")), "survey_draft": sheet(FH, draft), "survey_mid": sheet(FH, mid),
+        "survey_final": sheet(FH, final), "data": sheet(DATA_H, data), "tmplA": sheet(FH, tmpl_a), "tmplB": sheet(FH, tmpl_b),
+        "campA": sheet(CH, camp_a), "campB": sheet(CH, camp_b), "trigs": sheet(TH, trig)})
+
+
 BASES = [base_plain, base_blocks, base_multi, base_sugar, base_tmpl, base_genindex, base_trig, base_models, base_ops,
-         base_webhook, base_nested]
+         base_webhook, base_nested, base_redef]
 
 
 def all_bases(seed: int):
